@@ -93,6 +93,21 @@ ADDENDA = {
     "C17": "Also: every batch acceptance in IterStream::poll_next follows a cursor store, and iteration/snapshot code takes shard locks with blocking calls only.",
 }
 
+# clauses added in the second seeded round (DESIGN §9.8/§9.9)
+ADDENDA2 = {
+    "C02": "Also: the mpmc-unbounded hand-off session (values bound to parked receivers at publish time) is unreachable on the live control-flow graph.",
+    "C04": "Also: a counted clone is born open (closed = constant false on every path that registers it).",
+    "C05": "Also: where one notify can publish several items but wakes one waiter, consumers pass the wake on (live-CFG baton rule); a counted clone is born open, so the "
+           "last-handle disconnect stays reachable.",
+    "C11": "Also: the shard array indexed with `hash & (len-1)` has a power-of-two length by construction on every builder path.",
+    "C12": "Also: the stale-while-revalidate arm is entered through the `now >= expires_at` outcome, not through is_expired (which also covers the idle timeout).",
+    "C13": "Also: a wholesale reset of the gauge to 0 happens while every shard's write guard is held.",
+    "C16": "Also: an `Expired` notification is tied to is_expired of the removed entry, tested in the removal's critical section (1 demonstrated known finding shared with C12).",
+    "C17": "Also: the reference clock for persisted remaining lifetimes is sampled before the liveness test.",
+    "C18": "Also: only the registration functions mutate a container's provider table; the resolution path never writes back.",
+    "C19": "Also: the per-actor logger-rule lookup in process_event is unconditional (every actor's rules take part in the most-specific-logger decision).",
+}
+
 NOT_APPLICABLE = {
     "C20": "Escaping round-trips for arbitrary Unicode, padding/truncation and roll/retention arithmetic are functions of input values and clock steps; the only structural fact (serde_json + one newline) constrains no realistic change (DESIGN §5).",
 }
@@ -109,6 +124,8 @@ def main():
             tech, text, ref = CLAIMED[pid]
             if pid in ADDENDA:
                 text = text + " " + ADDENDA[pid]
+            if pid in ADDENDA2:
+                text = text + " " + ADDENDA2[pid]
             checks.append({
                 "property_id": pid,
                 "quick_cmd": f"./check {pid} --tier quick",
